@@ -5,6 +5,6 @@ CONSTANTS
   CompW = {0, 1, 2}
   BoundW = {0, 1, 2}
   Guarded = TRUE
-INVARIANTS NeverTooWide ExactBody NothingWhenNoRoom Proportional RefillWithin ZeroAndFull
+INVARIANTS NeverTooWide ExactBody NothingWhenNoRoom Proportional RefillWithin ZeroAndFull SpinnerFits
 PROPERTIES Terminates
 CHECK_DEADLOCK FALSE
